@@ -98,4 +98,44 @@ inductive SplitsTo (isSep : Str → Bool) : Str → List Str → Prop
   | cons (p m rest : Str) (ps : List Str) : isSep m = true → SplitsTo isSep rest ps →
       SplitsTo isSep (p ++ m ++ rest) (p :: ps)
 
+/-- `SplitsTop isSep s parts`: as `SplitsTo`, and every dropped separator lies at brace level 0 of
+`s`, for EVERY string: the level is the running brace depth in which an unmatched closing brace is
+an ordinary character (`depthSat`), so a group that is never closed extends to the end of the
+string.  (The text before a separator has depth 0; a separator contains no brace.) -/
+inductive SplitsTop (isSep : Str → Bool) : Str → List Str → Prop
+  | one (p : Str) : SplitsTop isSep p [p]
+  | cons (p m rest : Str) (ps : List Str) : isSep m = true → depthSat 0 p = 0 → SplitsTop isSep rest ps →
+      SplitsTop isSep (p ++ m ++ rest) (p :: ps)
+
+/-! "`m` is a match of the separator when the text `a` precedes it" (one unit of the default
+separator: a white-space character, or a tie that does not follow a backslash; `\ ` contains a
+blank, so it needs no case of its own) -/
+
+def spaceMatchAfter (a m : Str) : Bool :=
+  match m with
+  | [c] => isWs c || (c = '~' && a.getLast? ≠ some '\\')
+  | _ => false
+
+def commaMatchAfter (_a m : Str) : Bool := m == [',']
+def hyphenMatchAfter (_a m : Str) : Bool := m == ['-']
+def andMatchAfter (_a m : Str) : Bool := isAndSep m
+
+/-- the part `p` contains a match of the separator at brace level 0 (level as in `SplitsTop`) -/
+def HasTopSep (matchAfter : Str → Str → Bool) (p : Str) : Prop :=
+  ∃ a m b, p = a ++ m ++ b ∧ depthSat 0 a = 0 ∧ matchAfter a m = true
+
+/-! ### first letter (reference for `bibtex_first_letter`) -/
+
+/-- a token at which `bibtex_first_letter` stops: not a brace, and either a special character with
+something after its backslash or a letter -/
+def firstLetterStops (alpha : Char → Bool) (t : Str) : Bool :=
+  !(t = ['{'] || t = ['}']) && ((t.head? = some '\\' && t != ['\\']) || (t ≠ [] && t.all alpha))
+
+/-- the first letter or special character of a token sequence (tokens with their brace levels, in
+scan order): the special character is answered in braces, a letter as it is; nothing if there is none -/
+def firstLetterOf (alpha : Char → Bool) (toks : List (Str × Nat)) : Str :=
+  match toks.find? (fun t => firstLetterStops alpha t.1) with
+  | none => []
+  | some t => if t.1.head? = some '\\' ∧ t.1 ≠ ['\\'] then ['{'] ++ t.1 ++ ['}'] else t.1
+
 end Pybtex.Spec
